@@ -97,6 +97,43 @@ class Law(Scenario):
             ctx.true("a prediction is not rewarded merely for being larger", bigger >= at_pred)
 
 
+def _stat_fold(obj, kind):
+    """mean / sample standard deviation of a pandas object holding symbolic scalars (column-wise for frames)."""
+    from symlift.proxies import sym_sqrt
+
+    def one(vals):
+        vals = list(vals)
+        n = len(vals)
+        m = 0.0
+        for v in vals:
+            m = m + v
+        m = m / n
+        if kind == "mean":
+            return m
+        ss = 0.0
+        for v in vals:
+            ss = ss + (v - m) * (v - m)
+        return sym_sqrt(ss / (n - 1))
+
+    if isinstance(obj, pd.DataFrame):
+        return pd.Series({c: one(obj[c]) for c in obj.columns}, dtype=object)
+    return one(obj)
+
+
+class SymFrame(pd.DataFrame):
+    """DataFrame whose mean()/std() fold symbolically (pandas' nanops need float columns)."""
+
+    @property
+    def _constructor(self):
+        return SymFrame
+
+    def mean(self, *a, **kw):
+        return _stat_fold(self, "mean")
+
+    def std(self, *a, **kw):
+        return _stat_fold(self, "std")
+
+
 class _OptRes(dict):
     __getattr__ = dict.get
 
@@ -160,7 +197,7 @@ class FitRun(Scenario):
         loss_fn = getattr(losses, self.loss)
         tps = [0.5, 1.0]
         if self.kind == "tc":
-            data = pd.DataFrame({"x": [ctx.real("obs0"), ctx.real("obs1")]}, index=tps, dtype=dt)
+            data = (SymFrame if sym and self.scaled else pd.DataFrame)({"x": [ctx.real("obs0"), ctx.real("obs1")]}, index=tps, dtype=dt)
         elif self.kind == "ss":
             data = pd.Series({"x": ctx.real("obs0")}, dtype=dt)  # fluxes (k * x) would make the comparison of two losses non-linear
         else:
@@ -245,4 +282,8 @@ def scenarios(tier, seed):
                 scs.append(FitRun(kind, keys, with_y0, False))
         scs.append(FitRun(kind, key_sets[0], False, False, fail=True))
         scs.append(FitRun(kind, key_sets[-1], True, False, loss="mean_squared"))
+    # the default: standard-scaled residuals (time course; data statistics folded symbolically)
+    scs.append(FitRun("tc", ("k",), False, True, loss="mean_squared"))
+    scs.append(FitRun("tc", ("x", "k"), False, True, loss="mean_squared"))
+    scs.append(FitRun("tc", ("k",), True, True, loss="mae"))
     return scs
